@@ -129,6 +129,8 @@ passLoop:
 	c.SetExtra("max_depth", x.maxDepth)
 	c.SetExtra("alphabet_size", len(mainAlphabet()))
 	c.SetExtra("focus_alphabet", focusLabels)
+	c.SetExtra("pairs_in_the_valueless_tag_zone_decided_by_the_repository_matcher", valuelessZone.Load())
+	c.Unclaimed(valuelessZone.Load())
 	c.SetExtra("alphabet", alphabetDoc())
 	c.SetExtra("capacities", caps)
 	c.SetExtra("per_capacity", perCap)
